@@ -126,6 +126,12 @@ def run(ctx, keep, rule):
         rep = ctx.vh(["replay", "modfile", r.outfile])
         rep["violations"] = [v for v in rep.get("violations", []) if v.get("sig", "").startswith(keep)]
         ctx.add_report(rep, floor=floor, engine=cfg + ":replay")
+    if keep == "c08:":
+        # arbitrary string arguments: the quoting rule (specification ModfileQuote) through AddUse / AddReplace + Format + strict parse
+        r = ctx.tlc("ModfileQuoteGen", "ModfileQuoteGen_3" if q else "ModfileQuoteGen_4", name="ModfileQuoteGen", workers=16, timeout=3400)
+        rep = ctx.vh(["replay", "modsyntax", r.outfile])
+        rep["violations"] = [v for v in rep.get("violations", []) if v.get("sig", "").startswith(keep)]
+        ctx.add_report(rep, floor=10000, engine="ModfileQuoteGen:replay")
     trace_sessions(ctx, keep, 300 if q else 20000)
     ctx.assumptions += ["layouts are rendered to text by a 30-line renderer in the harness (trusted)",
                         "operation arguments come from a small vocabulary of paths, versions, keys and rationales",
